@@ -11,14 +11,14 @@ ENGINES = [
     {"name": "sweep", "path": "vf/props/c20.py", "serves_properties": ["C20"],
      "kind_free_text": "exhaustive loops over small string/integer domains executed on the real helpers, own recogniser as oracle"},
 ]
-FIX_COMMITS = ["e173e89", "69c9427", "3f819f3", "2ac9b91", "83ab516", "2982182", "b4341d3", "f68c828", "1e56e39", "8e8a574", "2622fd6", "9334850", "fd62f71", "1ea4c23", "c7c34d4", "dd26e59"]
+FIX_COMMITS = ["e173e89", "69c9427", "3f819f3", "2ac9b91", "83ab516", "2982182", "b4341d3", "f68c828", "1e56e39", "8e8a574", "2622fd6", "9334850", "fd62f71", "1ea4c23", "c7c34d4", "dd26e59", "6b2a920", "698b0bb"]
 NOT_APPLICABLE = {}
 CHECKS = {
     "C10": {
         "engine": "envdev+bfs-protocol", "level": "model_checking", "design_ref": "DESIGN.md §11",
-        "technique": "explicit-state BFS over McuBoot operation sequences against a reference device model, plus exhaustive single-fault injection at every byte/report of the device-to-host stream, all executed on the real protocol stack under a virtual clock",
-        "text": "Real McuBoot over the real UART and USB interface/device classes talks to a reference bootloader through fakes of pyserial.Serial / libusbsio HID_DEVICE. Fault-free: all operation sequences to depth 2 (quick) / 3 (thorough) per device configuration must have exactly the device effects, results and status the protocol defines, with no protocol violation seen by the device's own deframer. Faults: for every listed operation and every byte offset (serial) / report (HID) of the device-to-host stream, every fault kind is injected once; the call must terminate within the virtual-time horizon and never claim success with a result or device effect different from the fault-free run.",
-        "note": "Trusted: vf/ref/mboot_dev.py as protocol definition. SDP/SDPS, buspal/usbsio/CAN/SDIO device classes, lengths > 8 KiB and double faults (thorough subset only) are outside; HID payload corruption is undetectable by construction and not injected.",
+        "technique": "explicit-state BFS over McuBoot and SDP operation sequences against a reference device model, plus exhaustive single-fault injection at every byte/report of the device-to-host stream, all executed on the real protocol stack under a virtual clock",
+        "text": "Real McuBoot and SDP over the real UART and USB interface/device classes talk to a reference bootloader through fakes of pyserial.Serial / libusbsio HID_DEVICE. Fault-free: all operation sequences to depth 2 (quick) / 3 (thorough) per device configuration must have exactly the device effects, results and status the protocol defines, with no protocol violation seen by the device's own deframer. Faults: for every listed operation and every byte offset (serial) / report (HID) of the device-to-host stream, every fault kind is injected once; the call must terminate within the virtual-time horizon and never claim success with a result or device effect different from the fault-free run.",
+        "note": "Trusted: vf/ref/mboot_dev.py as protocol definition. SDPS, buspal/usbsio/CAN/SDIO device classes, lengths > 8 KiB and double faults (thorough subset only) are outside; HID payload corruption is undetectable by construction and not injected.",
     },
     "C18": {
         "engine": "procsched+crashpoints", "level": "fault_enumeration", "design_ref": "DESIGN.md §19",
